@@ -321,13 +321,13 @@ theorem parse_name_render (n rest : List Nat) (hn : NameOk n) (st : StopAt isAlp
     rw [e]
     exact parse_name_quoted n rest h3
 
-theorem ltt_new_ok (off : Int) (dst : Bool) (n : List Nat) (ho : off ≠ I32_MIN) (hn : NameOk n) :
+theorem ltt_new_ok (off : Int) (dst : Bool) (n : List Nat) (ho : -86400 < off ∧ off < 86400) (hn : NameOk n) :
     Ltt.new off dst (some n) = .ok ⟨off, dst, some n⟩ := by
   obtain ⟨h1, h2, h3⟩ := hn
   have k1 : NAME_MIN = 3 := rfl
   have k2 : NAME_MAX = 7 := rfl
   unfold Ltt.new TimeZoneName.new
-  rw [if_neg ho]
+  rw [if_neg (by omega)]
   simp only
   rw [if_neg (by simp only [Bool.not_eq_true', Bool.not_eq_false, Bool.and_eq_true, decide_eq_true_eq]; omega)]
   rw [if_pos h3]
@@ -497,7 +497,7 @@ theorem parse_dst_offset_render (so v : Int) (rest : List Nat) (hv : -89999 ≤ 
   · rename_i h; cases h
 
 theorem lttOk_elim {t : Ltt} {dst : Bool} (h : LttOk t dst) :
-    ∃ n, t = ⟨t.off, dst, some n⟩ ∧ NameOk n ∧ -89999 ≤ t.off ∧ t.off ≤ 89999 := by
+    ∃ n, t = ⟨t.off, dst, some n⟩ ∧ NameOk n ∧ -86400 < t.off ∧ t.off < 86400 := by
   obtain ⟨off, d, name⟩ := t
   obtain ⟨h1, h2, h3, h4⟩ := h
   dsimp only at h1 h2 h3 h4
@@ -521,7 +521,7 @@ theorem tz_roundtrip_fixed (t : Ltt) (ext : Bool) (h : LttOk t false) :
   simp only [P.bind_ok, List.isEmpty_nil, if_true]
   rw [ck32_ok (by omega) (by omega)]
   simp only [P.bind_ok, Int.neg_neg]
-  rw [ltt_new_ok t.off false n (by simp only [I32_MIN]; omega) hn]
+  rw [ltt_new_ok t.off false n (by omega) hn]
   rfl
 
 theorem tz_roundtrip_alt (a : Alt) (ext : Bool) (h : RuleOk ext (.alt a)) :
@@ -558,11 +558,11 @@ theorem tz_roundtrip_alt (a : Alt) (ext : Bool) (h : RuleOk ext (.alt a)) :
   simp only [P.bind_ok, List.isEmpty_nil, Bool.not_true, Bool.false_eq_true, if_false]
   rw [ck32_ok (by omega) (by omega)]
   simp only [P.bind_ok, Int.neg_neg]
-  rw [ltt_new_ok std.off false sn (by simp only [I32_MIN]; omega) hsn]
+  rw [ltt_new_ok std.off false sn (by omega) hsn]
   simp only [P.bind_ok]
   rw [ck32_ok (by omega) (by omega)]
   simp only [P.bind_ok, Int.neg_neg]
-  rw [ltt_new_ok dst.off true dn (by simp only [I32_MIN]; omega) hdn]
+  rw [ltt_new_ok dst.off true dn (by omega) hdn]
   simp only [P.bind_ok]
   have hw : SECONDS_PER_WEEK = 604800 := rfl
   have b1 : iabs t1 < 604800 := by
